@@ -320,13 +320,17 @@ def check_C09(ctx):
     if len(targets) != 1 or len(cases) != r.distinct:
         raise Infra("TLC table incomplete: %d target rows, %d case rows, %d states" % (len(targets), len(cases), r.distinct))
     cases = list(cases.values())
+    depth_rows = {json.dumps(x["v"], sort_keys=True): x for x in rows if x.get("kind") == "depth"}
+    depth_rows = list(depth_rows.values())
+    if len(depth_rows) < 12:
+        raise Infra("TLC printed %d optional-depth rows" % len(depth_rows))
     if corrupt_requested():
         c = [x for x in cases if x["v"].get("k") == "num"][0]
         j = c["cast"][0]
         c["cast"].remove(j)
         ctx.log("NEGATIVE CONTROL: removed target %d from the specified `as?` successes of %s" % (j, json.dumps(c["v"])))
     inp = os.path.join(ctx.work, "casts.table.ndjson")
-    write_ndjson(inp, targets + cases)
+    write_ndjson(inp, targets + depth_rows + cases)
     summ, fails, samples = driver_rows(ctx, binary, "cast", inp, "cast",
                                        env={"VERIF_CAST_FAILS": "3" if ctx.quick else "16"})
     for f in fails:
@@ -346,10 +350,12 @@ def check_C09(ctx):
         "rule": "distinct (value case, target) cells for which the specification predicts a successful cast or a positive type test; "
                 "every cell is evaluated by as?, isInstance, getType().isSubtype, identity of the cast result and as! on interpreter and VM",
         "value_cases": summ["cases"], "targets": summ["targets"], "scripts_executed": summ["programs"],
+        "optional_depth_operands": summ.get("depth_cases", 0),
         "exhaustive": True,
     }, assumptions=[
         "values are observed through an AnyStruct variable (which strips reference authorizations, as the language defines) and, for references, also through a variable of their own type",
-        "resource values are covered behind references only (a failable cast moves a resource); capabilities and storage references are not in the value universe",
+        "resource values are covered behind references and, as operands, in the optional-depth probes (R, R?, R??, R??? against AnyResource/R/{RI} targets of depth 0..3, as? in an if-let and as! on a fresh operand); capabilities and storage references are not in the value universe",
+        "identity of a successful cast = the result's run-time type equals the specified ResultType (operand, or its payload for non-Any* targets, boxed to the target's optional depth) and, in the table script, value equality",
         "isInstance / isSubtype on optional values are exempt, as the property says; for nil the success of `as?` is unobservable (some(nil) = nil) and only `as!` is checked",
         "`as!` on targets where `as?` gives nil runs in a script of its own: a seeded sample per case (3 quick / 16 thorough)",
     ])
